@@ -219,11 +219,17 @@ def _loader_strip(ctx, rule):
     return c07.r5_strip_discipline(ctx, rule, only=('lib_guesser/grammar_io.py::_load_from_file', 'lib_guesser/grammar_io.py::_load_base_structures'), floor=2)
 
 
+def _mask_insertion(ctx, rule):
+    # derivations whose last word is capitalised have chance 0 when the loader leaves out its mask transition (seed C16-h)
+    from . import c03
+    return c03.r3_mask_insertion(ctx, rule)
+
+
 def rules(tier):
     return [('C16.R1', r1_walk_weights), ('C16.R2', r2_uniform_choice), ('C16.R3', r3_seeding), ('C16.R4', r4_limit),
             ('C16.R5', c01.r8_uniform_scale), ('C16.R6', _renorm), ('C16.R7', _loaders_read_only),
             ('C16.R8', c04.r12_output_point_total), ('C16.R9', _loader_complete),
-            ('C16.R10', _loader_strip)]
+            ('C16.R10', _loader_strip), ('C16.R11', _mask_insertion)]
 
 
 META = {
